@@ -37,8 +37,15 @@ def scenario_stream(rng, n):
     """The input distribution of the random part (kinds and proportions are reported)."""
     for _ in range(n):
         k = rng.random()
-        if k < 0.70:
+        if k < 0.58:
             yield "main", cw.gen_scenario(rng)
+        elif k < 0.70:
+            sc = cw.gen_scenario(rng, faults=rng.random() < 0.3, expect=False)
+            for r in sc["reqs"]:
+                r["wait"] = True
+                r["chunks"] = [rng.choice([40, 300, 600]) for _ in range(rng.choice([1, 2, 3]))]
+            sc["send_plan"] = [rng.choice([None, 20, 90, 0]) for _ in range(rng.choice([2, 6]))]
+            yield "streaming-app", sc
         elif k < 0.78:
             yield "watermark0", cw.gen_scenario(rng, hw_choices=(0,), sb_choices=(1,))
         elif k < 0.85:
@@ -147,6 +154,8 @@ FINDING_REPLAYS = {"kf_c05_park_after_close": {"choices": [0, 0, 0, 1, 0, 1, 0, 
 
 
 def run(ctx):
+    import time
+    t0 = time.time()
     ctx.gate()
     props_ok, failing, log = ctx.props()
     ctx.build(["Model/ChanWake.vo", "Proof/ChanWakeInv.vo"])
@@ -173,9 +182,10 @@ def run(ctx):
                    all(e["bad"] == 0 and e["invbad"] == 0 for e in explored), json.dumps(explored))
 
     book = Book(ctx, runner)
+    t_build = time.time() - t0
 
     # (c) real code: seeded random and PCT schedules
-    n_random = 1500 if thorough else 230
+    n_random = 6000 if thorough else 500
     for kind, sc in scenario_stream(rng, n_random):
         pname, pol = cw.gen_policy(rng)
         w, cls, probs = cw.run_one(sc, policy=pol)
@@ -186,7 +196,7 @@ def run(ctx):
     for sc in cw.tiny_scenarios():
         def on_world(w, cls, probs, sc=sc):
             book.add("tiny", "exhaustive", sc, w, cls, probs)
-        res = cw.explore_tiny(sc, 2 if thorough else 1, 400 if thorough else 28, on_world)
+        res = cw.explore_tiny(sc, 2 if thorough else 1, 2500 if thorough else 50, on_world)
         exhaustive.append({"requests": len(sc["reqs"]), "poll2": sc["poll"], "runs": res["runs"],
                            "per_preemption_level": res["per_preemption_level"], "truncated": res["truncated"]})
     book.flush()
@@ -234,12 +244,13 @@ def run(ctx):
         "exhaustive_tiny": exhaustive,
         "model_explorer": explored,
         "shape_methods": len(cw.EXPECTED_SHAPE),
+        "seconds_build_and_explore": round(t_build, 1), "seconds_runs": round(time.time() - t0 - t_build, 1),
         "findings_reproduced": reproduced,
         "samples": book.samples,
-        "distribution": "70% main generator (1-3 requests, 1-3 chunks of 1..600 bytes, send_bytes in {1,50,150} <= watermark in {1,60,120,250,16MiB}, "
-                        "lookahead 0..2, 1-3 workers, partial-send plans with EWOULDBLOCK/EPIPE/EHOSTUNREACH, 8% recv faults, 30% client close, "
-                        "locks/attrs granularity and poll/poll2 50/50); 8% watermark 0; 7% send_bytes > watermark; 15% pipelined Expect: 100-continue; "
-                        "schedules 45% uniform random (stay 0..0.9), 55% PCT depth 1-3; plus bounded exhaustive (pre-emption bound %d) on 8 tiny scenarios" % (2 if thorough else 1),
+        "distribution": "58%% main generator (1-3 requests, 1-3 chunks of 1..600 bytes, send_bytes in {1,50,150} <= watermark in {1,60,120,250,16MiB}, "
+                        "lookahead 0..2, 1-3 workers, partial-send plans with EWOULDBLOCK/EPIPE/EHOSTUNREACH, 8%% recv faults, 30%% client close, "
+                        "locks/attrs granularity and poll/poll2 50/50); 12%% streaming application that waits for its consumer after every chunk (a worker parked in the application is a quiescent state too); 8%% watermark 0; 7%% send_bytes > watermark; 15%% pipelined Expect: 100-continue; "
+                        "schedules 45%% uniform random (stay 0..0.9), 55%% PCT depth 1-3; plus bounded exhaustive (pre-emption bound %d) on 8 tiny scenarios" % (2 if thorough else 1),
     })
 
 
